@@ -147,4 +147,12 @@ def allWrapped (mwLen : Nat) : List Ev → Bool
   | .recv _ _ mw _ :: tr => mw = mwLen && allWrapped mwLen tr
   | _ :: tr => allWrapped mwLen tr
 
+/-- C13, "the receiver last": the receiver at the inner end of the chain is the CURRENT incarnation
+    (the one returned by the latest Producer call), not one captured by an earlier composition. -/
+def chainTargetOK (cur : Nat) : List Ev → Bool
+  | [] => true
+  | .producer n :: tr => chainTargetOK n tr
+  | .recv inc _ _ _ :: tr => inc == cur && chainTargetOK cur tr
+  | _ :: tr => chainTargetOK cur tr
+
 end HW.Proc
